@@ -1,10 +1,12 @@
 #!/bin/bash
 # Runs every stored seeded change against the check of its property (and extra checks named in seeded/<id>/also)
 # and prints one line per run. Each change is applied in a scratch worktree of /repo (lib/seedrun2.sh) that the checks read through VERIF_REPO.
-cd /verif
+# VERIF_DIR (default /verif): the copy of the machinery to run; SEED_WT: the scratch worktree (see seedrun2.sh)
+vd=${VERIF_DIR:-/verif}
+cd $vd
 for d in seeded/*/; do
   id=$(basename $d); P=$(echo ${id^^} | cut -c1-3)
   [ -f $d/obsolete ] && { echo "$id: skipped (obsolete, see $d/obsolete)"; continue; }
   props="$P $(cat $d/also 2>/dev/null)"
-  ./lib/seedrun2.sh /verif/$d/patch.diff $props 2>&1 | grep -E 'exit=|does not|patch' | sed "s/^/$id: /" | cut -c1-260
+  ./lib/seedrun2.sh $vd/$d/patch.diff $props 2>&1 | grep -E 'exit=|does not|patch' | sed "s/^/$id: /" | cut -c1-260
 done
